@@ -34,7 +34,7 @@ type ival struct {
 
 type event struct {
 	T      int    `json:"t"`
-	Kind   string `json:"k"`           // create | suspend | resume | finish
+	Kind   string `json:"k"`           // create | suspend | resume | finish | outer_cancel (executor sub-checks only)
 	Reader int    `json:"r,omitempty"` // for suspend/resume
 	// Settle: call synctest.Wait() after reaching instant T and before
 	// performing the event, so that every base timer that expires at T has
@@ -55,6 +55,16 @@ type timeline struct {
 	Finish  int      `json:"finish"` // -1: the command never finishes by itself
 	Readers [][]ival `json:"readers"`
 	Events  []event  `json:"events"` // merged, in execution order
+
+	// Executor-level extensions (absent, and omitted from the script, in the
+	// plain timeline sub-check; see executor_test.go and wired_test.go).
+	// OuterCancel is the tick at which the context handed to Execute() is
+	// cancelled (event kind "outer_cancel"). Stalls == "wired" means that
+	// every interval is a real call through a suspending decorator against
+	// a parked backend, Calls[r][i] being the call behind Readers[r][i].
+	OuterCancel *int          `json:"outer_cancel,omitempty"`
+	Stalls      string        `json:"stalls,omitempty"`
+	Calls       [][]wiredPlan `json:"calls,omitempty"`
 
 	// Reference model tables, filled by prep(): depthAt[k] is the number of
 	// suspensions covering tick [k, k+1), uAt[t] the unsuspended time in
@@ -128,6 +138,9 @@ func (tl *timeline) horizon() int {
 		if iv.E > h {
 			h = iv.E
 		}
+	}
+	if tl.OuterCancel != nil && *tl.OuterCancel > h {
+		h = *tl.OuterCancel
 	}
 	return h + 3
 }
